@@ -301,14 +301,21 @@ def particle_number_measurement(
                 modes=map_to_original_modes(modes, postselected_modes)
             )
 
-            return [
-                Branch(
-                    state=state._copy_with_postselection(modes, outcome),
-                    outcome=outcome,
-                    frequency=probability,
+            branches = []
+
+            for outcome, probability in probabilities.items():
+                new_state = state._copy_with_postselection(modes, outcome)
+
+                # NOTE: The post-measurement state is the normalized projection of the
+                # state, unless the outcome is impossible.
+                if probability > 0.0:
+                    new_state._projection_probability *= probability
+
+                branches.append(
+                    Branch(state=new_state, outcome=outcome, frequency=probability)
                 )
-                for outcome, probability in probabilities.items()
-            ]
+
+            return branches
 
         probabilities = state.fock_probabilities_map
 
